@@ -52,9 +52,9 @@ def part_ngram(ctx):
                  ["TransformOfTrainIsTrain", "RowTotals", "PreLen", "MergeLemma"], "Ngram exhaustive V=2")
     if len(items) < 500:
         raise MachineryError("Ngram emitted too few instances")
-    if ctx.quick and len(items) > 25000:
+    if ctx.quick and len(items) > ctx.n(25000):
         ctx.exhaustive = False
-        items = rng.sample(items, 25000)
+        items = rng.sample(items, ctx.n(25000))
     ctx.log("ngram instances", len(items))
     res = pool_map("counts", "run_ngram", items, min_chunk=300)
     judge(ctx, items, res, "ngram", lambda it: bool(it["trans"]))
@@ -77,9 +77,9 @@ def part_skipgram(ctx):
     items = emit(ctx, "Skipgram", cfgs, count_cfg.tla_ngram,
                  dict(V=ctx.pick(2, 3), MaxLen=ctx.pick(3, 3), MaxDocs=2, TMaxLen=ctx.pick(2, 3), TMaxDocs=ctx.pick(2, 2)),
                  ["RowTotals"], "Skipgram exhaustive")
-    if ctx.quick and len(items) > 20000:
+    if ctx.quick and len(items) > ctx.n(20000):
         ctx.exhaustive = False
-        items = rng.sample(items, 20000)
+        items = rng.sample(items, ctx.n(20000))
     ctx.log("skipgram instances", len(items))
     res = pool_map("counts", "run_skipgram", items, min_chunk=300)
     judge(ctx, items, res, "skipgram", lambda it: bool(it["trans"]))
@@ -99,9 +99,9 @@ def part_edgelist(ctx):
     for it in items:
         it.pop("V", None)
         it["styles"] = ["str", "int"] if rng.random() < 0.3 else ["str"]
-    if ctx.quick and len(items) > 30000:
+    if ctx.quick and len(items) > ctx.n(30000):
         ctx.exhaustive = False
-        items = rng.sample(items, 30000)
+        items = rng.sample(items, ctx.n(30000))
     ctx.log("edgelist instances", len(items))
     res = pool_map("counts", "run_edgelist", items, min_chunk=500)
     judge(ctx, items, res, "edgelist", lambda it: bool(it["trans"]))
